@@ -4,6 +4,7 @@ import (
 	"fmt"
 	"math"
 	"strconv"
+	"strings"
 
 	"verif/internal/xgen"
 	"verif/internal/xref"
@@ -172,7 +173,7 @@ func init() {
 	Register(&Monitor{
 		ID:         "C09",
 		Level:      "exploration",
-		Exhaustive: []string{"substring", "pairs"},
+		Exhaustive: []string{"substring", "pairs", "ascii"},
 		Rule: "exhaustive substring sweep: every string of a 14-string ASCII alphabet (incl. '', whitespace-only, 1..11 chars) x start in {-3 .. len+3 step 0.5} x length in {absent, -2 .. len+4 step 0.5, 100} (and NaN / +-Infinity arguments); every other function (concat, contains, starts-with, ends-with, substring-before, substring-after, string-length, normalize-space, translate, lower-case, string) over all pairs/triples of the alphabet; " +
 			"seeded random nestings to depth 4 with flat node-set arguments (string-value of the first node in document order, '' for the empty node-set) and string-join over flat paths. Non-trivial: the result is a non-empty string, true, or a non-zero number; distinct by (expression text, document, context).",
 		Assume:        []string{"reference evaluator internal/xref (string functions transcribed from the XPath 1.0 recommendation, round-half-up positions)", "ASCII arguments only, as the statement says"},
@@ -182,6 +183,8 @@ func init() {
 			witnessFamily("C09"),
 			{Name: "substring", N: func(string) int { return len(xgen.StrAlphabet) }, Run: c09Substring},
 			{Name: "pairs", N: func(string) int { return len(xgen.StrAlphabet) }, Run: c09Pairs},
+			{Name: "ascii", N: func(string) int { return 95 }, Run: c09ASCII},
+			{Name: "long", N: func(string) int { return 6 }, Run: c09Long},
 			{Name: "rand", N: tierN(250000, 10000000), Run: c09Random},
 		},
 	})
@@ -318,4 +321,87 @@ func c09Random(c *Case) {
 	c.SampleEvery(6007, func() interface{} {
 		return map[string]interface{}{"family": "rand", "expr": xref.Render(e), "ctx": ctx.Label(), "value": fmtValue(want)}
 	})
+}
+
+func strLit(s string) (xref.Expr, bool) {
+	if strings.Contains(s, "'") && strings.Contains(s, "\"") {
+		return nil, false
+	}
+	return xref.Str{V: s}, true
+}
+
+// c09ASCII: every printable ASCII character, alone and embedded, through every string function
+// (no letter, digit or punctuation mark is special to any of them).
+func c09ASCII(c *Case) {
+	ch := string(rune(32 + c.Index))
+	d := valueDoc(c.GShared("gdoc", 0))
+	ctx := d.Root
+	run := func(e xref.Expr) bool {
+		want, ok := c.scalarCheck(e, ctx, "ABORT")
+		c.Count("grid:ascii")
+		if ok && nontrivialValue(want) {
+			c.Nontrivial(xref.Render(e))
+		}
+		return ok
+	}
+	for _, s := range []string{ch, ch + ch, "a" + ch + "b", ch + "a", "ja" + ch + ch + " 12", "A" + ch + "Z"} {
+		lit, ok := strLit(s)
+		if !ok {
+			continue
+		}
+		chl, _ := strLit(ch)
+		for _, f := range []string{"lower-case", "string-length", "normalize-space", "string"} {
+			if !run(xref.Call{Name: f, Args: []xref.Expr{lit}}) {
+				return
+			}
+		}
+		for _, f := range []string{"contains", "starts-with", "ends-with", "substring-before", "substring-after", "concat"} {
+			if !run(xref.Call{Name: f, Args: []xref.Expr{lit, chl}}) || !run(xref.Call{Name: f, Args: []xref.Expr{chl, lit}}) {
+				return
+			}
+		}
+		if !run(xref.Call{Name: "translate", Args: []xref.Expr{lit, chl, xref.Str{V: "#"}}}) || !run(xref.Call{Name: "translate", Args: []xref.Expr{lit, xref.Str{V: "ab"}, xref.Str{V: ch + ch}}}) ||
+			!run(xref.Call{Name: "translate", Args: []xref.Expr{lit, chl, xref.Str{V: ""}}}) || !run(xref.Call{Name: "substring", Args: []xref.Expr{lit, xref.Num{Lex: "2"}, xref.Num{Lex: "2"}}}) {
+			return
+		}
+	}
+	c.Sample(map[string]interface{}{"family": "ascii", "char": ch})
+}
+
+// c09Long: strings beyond 256 and 65536 characters (lengths and positions that do not fit a byte or a 16-bit word).
+func c09Long(c *Case) {
+	n := []int{255, 256, 257, 300, 65535, 65537}[c.Index]
+	d := valueDoc(c.GShared("gdoc", 0))
+	ctx := d.Root
+	s := strings.Repeat("abcdefghij", n/10+1)[:n]
+	lit := xref.Str{V: s}
+	run := func(e xref.Expr) bool {
+		_, ok := c.scalarCheck(e, ctx, "ABORT")
+		c.Count("grid:long")
+		c.Nontrivial(fmt.Sprintf("long|%d|%d", n, c.Rep.Counters["grid:long"]))
+		return ok
+	}
+	num := func(i int) xref.Expr { return xref.Num{Lex: fmt.Sprint(i)} }
+	for _, e := range []xref.Expr{
+		xref.Call{Name: "string-length", Args: []xref.Expr{lit}},
+		xref.Call{Name: "string-length", Args: []xref.Expr{xref.Call{Name: "concat", Args: []xref.Expr{lit, lit, xref.Str{V: "x"}}}}},
+		xref.Call{Name: "substring", Args: []xref.Expr{lit, num(n - 2)}},
+		xref.Call{Name: "substring", Args: []xref.Expr{lit, num(n - 2), num(5)}},
+		xref.Call{Name: "substring", Args: []xref.Expr{lit, num(250), num(10)}},
+		xref.Call{Name: "substring", Args: []xref.Expr{lit, num(n), num(1)}},
+		xref.Call{Name: "substring", Args: []xref.Expr{lit, num(n + 1)}},
+		xref.Call{Name: "string-length", Args: []xref.Expr{xref.Call{Name: "substring-after", Args: []xref.Expr{lit, xref.Str{V: s[n-4:]}}}}},
+		xref.Call{Name: "string-length", Args: []xref.Expr{xref.Call{Name: "substring-before", Args: []xref.Expr{lit, xref.Str{V: s[n-4:]}}}}},
+		xref.Call{Name: "contains", Args: []xref.Expr{lit, xref.Str{V: s[n-7:]}}},
+		xref.Call{Name: "ends-with", Args: []xref.Expr{lit, xref.Str{V: s[n-7:]}}},
+		xref.Call{Name: "starts-with", Args: []xref.Expr{lit, xref.Str{V: s[:n-1]}}},
+		xref.Call{Name: "string-length", Args: []xref.Expr{xref.Call{Name: "translate", Args: []xref.Expr{lit, xref.Str{V: "abc"}, xref.Str{V: "A"}}}}},
+		xref.Call{Name: "string-length", Args: []xref.Expr{xref.Call{Name: "normalize-space", Args: []xref.Expr{xref.Call{Name: "concat", Args: []xref.Expr{xref.Str{V: "  "}, lit, xref.Str{V: "  x "}}}}}}},
+		xref.Call{Name: "substring", Args: []xref.Expr{xref.Call{Name: "lower-case", Args: []xref.Expr{xref.Call{Name: "concat", Args: []xref.Expr{lit, xref.Str{V: "QZ"}}}}}, num(n)}},
+	} {
+		if !run(e) {
+			return
+		}
+	}
+	c.Sample(map[string]interface{}{"family": "long", "length": n})
 }
